@@ -26,6 +26,7 @@ Records (whitespace tokens):
   drat <tag> <cnf> <proof>         -> the lemmas form a RUP refutation ending in the empty clause (Check/Rup.lean)
   maxsat <tag> <softs> <cost> v*   -> model satisfies the hard clauses, has that cost, and the cost is optimal
   same <tag> a b                   -> two observations that must be identical
+  recmin <limit> <lvl> … :: … :: … -> a run of the real recursive minimiser equals Model/RecMin (kept predicates and call trace)
   litdefs <n>                      -> the first n constraints of the model define literals of predicates
   drcp <kind> <obj> <lits> :: steps -> the proof file is a valid DRCP certificate (Check/DrcpCheck.lean)
   drcpw <step> :: <text>           -> the real writer's line equals the model's rendering and reads back
@@ -42,6 +43,7 @@ import Pumpkin.Model.Dimacs
 import Pumpkin.Model.ImplicitReason
 import Pumpkin.Model.Lits
 import Pumpkin.Model.SemMin
+import Pumpkin.Model.RecMin
 import Pumpkin.Check.Rup
 import Pumpkin.Check.MaxSat
 import Pumpkin.Check.DrcpCheck
@@ -134,6 +136,35 @@ def pStep : P Step := fun ts =>
   | _ => none
 
 def setModel (m : Model) : St := { model := m, sols := solutions m }
+
+
+/-- `recmin` record: groups of naturals. `takeGroups k n xs` reads `n` groups of `k` numbers. -/
+def takeGroups (k : Nat) : Nat → List Nat → Option (List (List Nat) × List Nat)
+  | 0, xs => some ([], xs)
+  | n + 1, xs =>
+    if xs.length < k then none else
+    match takeGroups k n (xs.drop k) with
+    | some (gs, r) => some (xs.take k :: gs, r)
+    | none => none
+
+/-- visits: `id code level isdec k a1 … ak` -/
+def takeVisits : Nat → List Nat → Option (List (Nat × Nat × Nat × Nat × List Nat) × List Nat)
+  | 0, xs => some ([], xs)
+  | n + 1, xs =>
+    match xs with
+    | id :: code :: lvl :: isd :: k :: r =>
+      if r.length < k then none else
+      match takeVisits n (r.drop k) with
+      | some (vs, r') => some ((id, code, lvl, isd, r.take k) :: vs, r')
+      | none => none
+    | _ => none
+
+/-- the observed reason graph is acyclic: every node gets a rank within `n` rounds -/
+def acyclicRounds (reason : Nat → List Nat) (nodes : List Nat) : Nat → List Nat → Bool
+  | 0, ranked => nodes.all ranked.contains
+  | k + 1, ranked =>
+    let ranked' := nodes.filter (fun p => ranked.contains p || (reason p).all ranked.contains)
+    if ranked'.length == ranked.length then nodes.all ranked.contains else acyclicRounds reason nodes k ranked'
 
 def respond (st : St) (line : String) : St × Option String :=
   let ts := tokens line
@@ -476,6 +507,50 @@ def respond (st : St) (line : String) : St × Option String :=
                  | .bool nm v => s!" b {name nm} {v}")) "") "ok"
        if model == impl then (st, some s!"ok litsfile {(model.splitOn " ").take 1}")
        else (st, some s!"FAIL litsfile model=[{model}] impl=[{impl}]"))
+  | "recmin" :: rest =>
+    -- `recmin <limit> <curlevel> <n> (id code level)*n :: <nv> (id code level isdec k a*k)*nv :: <k> id*k`:
+    -- exact correspondence of a run of the real RecursiveMinimiser with Model/RecMin (kept predicates
+    -- in order, and the sequence of compute_label calls with their outcomes)
+    (match (do
+        let parts := (" ".intercalate rest).splitOn " :: "
+        match parts with
+        | [a, b, c] =>
+          let na ← ((a.splitOn " ").filter (· ≠ "")).mapM String.toNat?
+          let nb ← ((b.splitOn " ").filter (· ≠ "")).mapM String.toNat?
+          let nc ← ((c.splitOn " ").filter (· ≠ "")).mapM String.toNat?
+          match na, nb, nc with
+          | limit :: cur :: n :: ra, nv :: rb, k :: rc =>
+            let (inits, ra') ← takeGroups 3 n ra
+            let (visits, rb') ← takeVisits nv rb
+            if !ra'.isEmpty || !rb'.isEmpty || rc.length != k then none
+            else pure (limit, cur, inits, visits, rc)
+          | _, _, _ => none
+        | _ => none) with
+     | none => (st, some "FAIL recmin unparsed")
+     | some (limit, cur, inits, visits, implOut) =>
+       let nogood := inits.map (fun g => g.getD 0 0)
+       let levelOf := fun (p : Nat) =>
+         match inits.find? (fun g => g.getD 0 0 == p) with
+         | some g => g.getD 2 0
+         | none => match visits.find? (fun v => v.1 == p) with
+           | some v => v.2.2.1
+           | none => 0
+       let isDec := fun (p : Nat) =>
+         (inits.any (fun g => g.getD 0 0 == p && g.getD 1 0 == 1)) || (visits.any (fun v => v.1 == p && v.2.2.2.1 == 1))
+       let reasonOf := fun (p : Nat) =>
+         match visits.find? (fun v => v.1 == p && v.2.1 == 4) with
+         | some v => v.2.2.2.2
+         | none => []
+       let ctx : Pumpkin.RecMin.Ctx := { info := fun p => ⟨levelOf p, isDec p, reasonOf p⟩, limit := limit, curLevel := cur }
+       let res := Pumpkin.RecMin.removeDominated ctx nogood
+       let modelTrace := res.1.trace.reverse
+       let implTrace := visits.map (fun v => (v.1, v.2.1))
+       let nodes := (nogood ++ visits.map (·.1) ++ visits.flatMap (·.2.2.2.2)).eraseDups
+       if limit == 0 then (st, some "FAIL recmin limit-zero")
+       else if !acyclicRounds reasonOf nodes nodes.length [] then (st, some "FAIL recmin reason-graph-has-a-cycle")
+       else if res.2 != implOut then (st, some s!"FAIL recmin limit={limit} kept model={res.2} impl={implOut}")
+       else if modelTrace != implTrace then (st, some s!"FAIL recmin limit={limit} calls model={modelTrace} impl={implTrace}")
+       else (st, some s!"ok recmin limit={if limit == 500 then "500" else "low"} removed={nogood.length - implOut.length}"))
   | "semmin" :: mergeTok :: rest =>
     -- `semmin <merge 0|1> <n> <input atoms> :: (false | <k> <output atoms>)`: exact correspondence of
     -- the real SemanticMinimiser::minimise with Model/SemMin (as sets of predicates; the original
